@@ -34,6 +34,10 @@ func isMalType(t types.Type) bool {
 func lispContainer(t types.Type) bool {
 	switch u := t.Underlying().(type) {
 	case *types.Slice:
+		// []byte: the storage of a binary value (str2binary, unbase64, slurp-binary results are lisp data too)
+		if b, ok := u.Elem().Underlying().(*types.Basic); ok && b.Kind() == types.Byte {
+			return true
+		}
 		return isMalType(u.Elem())
 	case *types.Map:
 		if b, ok := u.Key().Underlying().(*types.Basic); !ok || b.Kind() != types.String {
@@ -354,6 +358,12 @@ func ruleContainerWrites(w *World, r *Report, e *Engine, rule string, include fu
 					if callee := x.Call.StaticCallee(); callee != nil && !strings.HasPrefix(fnPkgPath(callee), modPath) && len(callee.Blocks) > 0 {
 						for i, arg := range x.Call.Args {
 							if !lispContainer(arg.Type()) || i >= len(callee.Params) {
+								continue
+							}
+							// byte slices travel through far more of the standard library than lisp containers do
+							// (files, encoders, hashes), nearly all of it reading; only the packages whose business
+							// is editing a slice in place are asked here
+							if isByteSlice(arg.Type()) && !byteEditingPkg(fnPkgPath(callee)) {
 								continue
 							}
 							if !writesParam(callee, i, map[*ssa.Function]bool{}, 0) {
@@ -744,6 +754,10 @@ func writesParam(fn *ssa.Function, idx int, seen map[*ssa.Function]bool, depth i
 						if callee != nil && (callee.Name() == "len" || callee.Name() == "cap") {
 							continue
 						}
+						// the assembly search primitives under bytes and strings only read
+						if callee != nil && callee.Pkg != nil && callee.Pkg.Pkg.Path() == "internal/bytealg" {
+							continue
+						}
 						return true // unknown code is handed the storage
 					}
 					if writesParam(callee, i, seen, depth+1) {
@@ -973,4 +987,21 @@ func (w *World) isRegistered(fn *ssa.Function) bool {
 		registeredSet[w] = set
 	}
 	return set[fn]
+}
+
+func isByteSlice(t types.Type) bool {
+	sl, ok := t.Underlying().(*types.Slice)
+	if !ok {
+		return false
+	}
+	b, ok := sl.Elem().Underlying().(*types.Basic)
+	return ok && b.Kind() == types.Byte
+}
+
+func byteEditingPkg(path string) bool {
+	switch path {
+	case "bytes", "slices", "sort", "encoding/binary", "strconv", "unicode/utf8":
+		return true
+	}
+	return false
 }
